@@ -34,8 +34,18 @@ pub fn pae(pieces: &[&[u8]]) -> Vec<u8> {
     out
 }
 
+thread_local! {
+    static SUFFIX: std::cell::Cell<&'static str> = const { std::cell::Cell::new("") };
+}
+
+/// payload-encoding suffix that is part of the token header ("v4" + suffix + ".local."); the
+/// standard JSON encoding has none
+pub fn set_suffix(s: &'static str) {
+    SUFFIX.with(|x| x.set(s));
+}
+
 fn hdr(ver: u8, purpose: &str) -> String {
-    format!("v{ver}.{purpose}.")
+    format!("v{ver}{}.{purpose}.", SUFFIX.with(|x| x.get()))
 }
 
 pub fn local_sizes(ver: u8) -> (usize, usize) {
